@@ -180,6 +180,18 @@ CLAIMED = {
             "chaining at every split point incl. empty chunks; TLC evaluates the reference algorithm for every message.",
             "Trusted: TLC and CommunityModules Bitwise; messages above 300 bytes use one pseudo-random fill pattern.",
             "DESIGN.md 3.10"),
+    "C09": ("TLA+ character-driven state machine of the data-string syntax (a fold with explicit `exact` flag) and a "
+            "decoder of hex-dump lines incl. colour escapes, collapsing and address arithmetic in BigNat (spec/DataText): "
+            "TLC checks the losslessness law on a reference formatter and every documented construct, and validates "
+            "recorded round trips, parser runs and dumps",
+            "format_data_string: every byte string of length <=1, pairs over 21 syntax characters, random strings up to 600 "
+            "bytes x 4 mask styles x both flags - the text must parse back to (bytes, mask) under the TLA+ parser and under "
+            "parse_data_string; parser totality on grammar-generated, edited, truncated and random texts in exact-size heap "
+            "buffers (ASan), with exact expected bytes inside the modelled grammar; hex dumps over 12 start addresses "
+            "(unaligned, around 2^32, near 2^64) x 15 flag sets x diff mode, collapsing edge cases, 1-4-way iovec partitions.",
+            "Trusted: TLC, ASan. Float/double dump columns: geometry only. One known finding (end address 2^64) is listed "
+            "in known_findings.json and reported as KNOWN-FINDING.",
+            "DESIGN.md 3.9"),
 }
 
 NOT_YET = "check not built yet in this round (planned: see DESIGN.md section 3)"
